@@ -17,7 +17,7 @@ EXTENDS ErrSystem, TLC, Json
 TraceLog == ndJsonDeserialize("trace.ndjson")
 
 VARIABLE l
-tvars == <<slots, net, reg, taint, procs, l>>
+tvars == <<slots, net, reg, taint, procs, gor, l>>
 
 D == Deviations
 
@@ -358,6 +358,16 @@ ReportGrpc(ev, base, new) ==
   /\ IF o.nil \/ IsNil(v) THEN TRUE
      ELSE Chk(o.tree = TreeOf(v, reg), ev, "tree", "conf", {}, TreeOf(v, reg), o.tree)
 
+\* ---- concurrent observers (C18): every result of every repetition equals the
+\* result of the operation executed alone; no data race reported; no panic
+ReportConc(ev) ==
+  LET st == ev.step c == ev.obs.conc IN
+  /\ Chk(ev.obs.panic = "" /\ c.panic = "", ev, "conc.panic", "verdict", {"C18"}, "", [h |-> ev.obs.panic, g |-> c.panic])
+  /\ IF st.op = "CBegin" THEN TRUE
+     ELSE /\ Chk(c.iters >= 1, ev, "conc.ran", "conf", {}, TRUE, c.iters)
+          /\ Chk(c.bad = 0, ev, "conc.result", "verdict", {"C18"}, 0, c)
+          /\ Chk(c.races = 0, ev, "conc.race", "verdict", {"C18"}, 0, c)
+
 \* ---- type renames across code versions (C17)
 ReportMig(ev, r) ==
   LET st == ev.step o == ev.obs.mig IN
@@ -386,8 +396,13 @@ TNext ==
      IF st.op \in MigOps
      THEN LET r == MigApply(st, base, pbase) IN
           /\ r.ok
-          /\ slots' = r.sl /\ procs' = r.pr /\ taint' = tbase
+          /\ slots' = r.sl /\ procs' = r.pr /\ taint' = tbase /\ gor' = Idle
           /\ ReportMig(ev, r)
+     ELSE IF st.op \in ConcOps
+     THEN LET r == ConcApply(st, base, IF ev.first THEN Idle ELSE gor) IN
+          /\ r.ok
+          /\ slots' = base /\ procs' = pbase /\ taint' = tbase /\ gor' = r.gr
+          /\ ReportConc(ev)
      ELSE
      LET new == [base EXCEPT ![st.dst] = Build(st, base, reg)]
          tn == TaintOf(st, base, tbase, new[st.dst])
@@ -397,6 +412,7 @@ TNext ==
      IN /\ Enabled(st, base)
         /\ slots' = new
         /\ procs' = pbase
+        /\ gor' = IF ev.first THEN Idle ELSE gor
         /\ taint' = [tbase EXCEPT ![st.dst] = [tn EXCEPT !.dv = tn.dv \/ diverged]]
         /\ IF st.op = "Hop" THEN ReportHop(ev, base, new, tn)
            ELSE IF st.op = "Grpc" THEN ReportGrpc(ev, base, new)
